@@ -84,6 +84,8 @@ static int g_cb_mode = 0;
 static int scen_cb(jwt_t *jwt, jwt_config_t *) {
   // runs while armed: these are library operations on the handed jwt_t
   if (g_cb_mode == 1) { jwt_value_t v = val_int("cb", 7, 1); int r = jwt_claim_set(jwt, &v); if (r) return 1; v = val_str("cbh", "x", 1); if (jwt_header_set(jwt, &v)) return 1; }
+  // mode 3: a callback that edits the token it is handed so that the checked claims would pass (C19: that must not change the verdict, with or without a fault)
+  if (g_cb_mode == 3) { jwt_claim_del(jwt, "exp"); jwt_claim_del(jwt, "nbf"); jwt_value_t v = val_str("iss", "issuer", 1); if (jwt_claim_set(jwt, &v)) return 1; }
   if (g_cb_mode == 2) { jwt_value_t v = val_get(JWT_VALUE_JSON, nullptr); if (jwt_claim_get(jwt, &v) == JWT_VALUE_ERR_NONE) { bool a = g_armed; g_armed = false; free(v.json_val); g_armed = a; } v = val_get(JWT_VALUE_STR, "iss"); jwt_claim_get(jwt, &v); }
   return 0;
 }
@@ -222,6 +224,10 @@ static void build_scenarios(bool thorough) {
       if (!thorough && tk > 1 && i > 2) continue;
       std::string nm = std::string("checker/") + prov_name(prov) + "/" + (k.key ? k.key : "nokey") + "/" + (k.attr ? k.attr : "-") + "/" + (k.expl ? jwt_alg_str(k.expl) : "none") + "/token" + std::to_string(tk) + (cb ? "/reading-cb" : "");
       SC.push_back({nm, [=] { scen_checker(prov, k.key, k.attr, k.expl, cb, tk); }});
+    }
+    for (int i = 0; i < (thorough ? 7 : 3); i++) for (int tk : {2, 3}) {   // tokens that fail on their claims only + a callback that edits those claims
+      const KA &k = kas[i]; std::string nm = std::string("checker/") + prov_name(prov) + "/" + (k.key ? k.key : "nokey") + "/" + (k.attr ? k.attr : "-") + "/" + (k.expl ? jwt_alg_str(k.expl) : "none") + "/token" + std::to_string(tk) + "/claim-editing-cb";
+      SC.push_back({nm, [=] { scen_checker(prov, k.key, k.attr, k.expl, 3, tk); }});
     }
     SC.push_back({std::string("keyring/") + prov_name(prov), [=] { scen_keyring(prov); }});
     { int nh = thorough ? 250 : 5;
